@@ -1,7 +1,11 @@
 #!/bin/bash
 # MANIFEST.setup_cmd: build the Lean library (models, lemmas, property theorems) and every model driver,
 # offline, from the files on disk.  Checks rebuild incrementally on every run.
-set -e
-cd "$(dirname "$0")/lean"
+# A module that fails to build here does not fail the setup: lake builds everything else, and the check of the
+# affected property rebuilds its own targets and reports the broken obligation itself.
+cd "$(dirname "$0")/lean" || exit 1
 drivers=$(grep -o 'name = "drv_[a-z0-9_]*"' lakefile.toml | sed 's/name = "\(.*\)"/\1/')
-lake build PyramidModel $drivers
+if ! lake build PyramidModel $drivers; then
+  echo "setup: some Lean targets failed to build (see above); the checks of the affected properties will report it"
+fi
+exit 0
